@@ -79,7 +79,8 @@ class CacheLocker(object):
         active_locks = False
         cur.execute("SELECT * from cache_locks where cache_name = ? ORDER BY created", (cache_name, ))
 
-        for lock in cur:
+        # fetch all rows first: _remove_lock re-uses the cursor and would end the iteration
+        for lock in cur.fetchall():
             if not active_locks and lock['cache_name'] == cache_name and lock['pid'] == pid:
                 # we are waiting and it is out turn
                 return True
